@@ -157,10 +157,26 @@ func genBatch(r *rand.Rand, dir string, idx int) batchSpec {
 		if r.Intn(2) == 0 {
 			ents = append(ents, "more/x/y.txt")
 		}
+		var conts []string
 		for _, e := range ents {
-			fmt.Fprintf(&sb, "-- %s --\ncontent of %s for %s\n", e, e, tok)
+			conts = append(conts, fmt.Sprintf("content of %s for %s\n", e, tok))
+		}
+		// the same path twice (RequireUniqueNames is off: the later entry wins), the later one
+		// shorter, longer or empty, spelled identically or through a ".." that cleans to it
+		if r.Intn(3) == 0 {
+			k := r.Intn(len(ents))
+			spelled := ents[k]
+			if r.Intn(2) == 0 {
+				spelled = "nested/../" + ents[k]
+			}
+			ents = append(ents, spelled)
+			conts = append(conts, []string{"short\n", "", conts[k] + "and a second, longer version of it\n", "x\n"}[r.Intn(4)])
+		}
+		for i, e := range ents {
+			fmt.Fprintf(&sb, "-- %s --\n%s", e, conts[i])
 		}
 		sp.Entries = ents
+		sp.Contents = conts
 		if sp.Ending == "setupfail" {
 			sp.SetupFail = true
 			sp.Marks = nil
@@ -185,8 +201,10 @@ func genBatch(r *rand.Rand, dir string, idx int) batchSpec {
 
 func expectedTree(sp scriptSpec) []string {
 	set := map[string]bool{".tmp": true}
-	for _, e := range sp.Entries {
-		set[e] = true
+	files := map[string]string{}
+	for i, e := range sp.Entries {
+		e = filepath.Clean(e)
+		files[e] = sp.Contents[i] // a later entry of the same path wins
 		for d := filepath.Dir(e); d != "."; d = filepath.Dir(d) {
 			set[d] = true
 		}
@@ -194,6 +212,9 @@ func expectedTree(sp scriptSpec) []string {
 	var l []string
 	for k := range set {
 		l = append(l, k)
+	}
+	for k, c := range files {
+		l = append(l, k+"="+batch.TreeSum([]byte(c)))
 	}
 	sort.Strings(l)
 	return l
